@@ -91,8 +91,41 @@ class SymMatrix:
             self._cols = _np.asarray(indices).astype(int)
             self.data = _np.asarray(data, dtype=object)
 
+    def sum_duplicates(self):
+        """scipy (called by spsolve on its argument, *in place*): entries stored twice for one position are merged, so the
+        data array of the matrix object becomes shorter"""
+        pos, order = {}, []
+        for i, (r, c) in enumerate(zip(self._rows, self._cols)):
+            k = (int(r), int(c))
+            if k in pos:
+                pos[k].append(i)
+            else:
+                pos[k] = [i]
+                order.append(k)
+        if len(order) == len(self._rows):
+            return
+        order.sort()
+        data = _np.empty(len(order), dtype=object)
+        for n_, k in enumerate(order):
+            v = self.data[pos[k][0]]
+            for i in pos[k][1:]:
+                v = v + self.data[i]
+            data[n_] = v
+        self._rows = _np.array([k[0] for k in order], dtype=int)
+        self._cols = _np.array([k[1] for k in order], dtype=int)
+        self.data = data
+
+    def eliminate_zeros(self):
+        """scipy: stored entries that are exactly zero are removed (structure and data shrink together)"""
+        keep = _np.array([not (not isinstance(d, Sym) and d == 0) for d in self.data], dtype=bool)
+        self._rows, self._cols = self._rows[keep], self._cols[keep]
+        self.data = _np.asarray(self.data, dtype=object)[keep]
+
     @property
     def entries(self):
+        if len(self.data) != len(self._rows):
+            # scipy: a data array that does not fit the stored structure makes the matrix unusable
+            raise ValueError("SymMatrix: %d data values for %d stored positions" % (len(self.data), len(self._rows)))
         e = {}
         for d, r, c in zip(self.data, self._rows, self._cols):
             k = (int(r), int(c))
@@ -112,6 +145,7 @@ def _is_zero(v):
 
 def sym_spsolve(A, b):
     n = A.shape[0]
+    A.sum_duplicates()        # as scipy's spsolve does, in place
     ent = A.entries
     k = len(CTX.systems)
     rec = {"A": A, "entries": ent, "b": _np.array(b, dtype=object), "n": n, "k": k}
